@@ -6,7 +6,10 @@ through the real ModulePrinter, computed strictly by each interpreter:
   * every cell and [sampled | all] depth-2 chains, rendered as source text,
   * numeric / string literal boundary values in operator contexts,
   * whole modules: pinned corpus, each version's grammar test files, the shape bank,
-  * minify() with every transform off (strict identity with the input tree).
+  * minify() with every transform off (strict identity with the input tree);
+and by TokensS.tla / Tokens.tla / Trace_Tokens.tla (the lexical rule for neighbouring tokens S, the TokenPrinter's blank rule M, S validated
+against the tokenizers / parsers of five interpreters) judging every (previous token, separator, token) triple the real TokenPrinter emitted
+while printing all of the above (recorded by an outside wrapper of its methods).
 """
 import base64
 import random
@@ -14,6 +17,7 @@ import random
 from ..common import main_wrapper, available_versions, sha, MachineryError
 from .. import tlc, pool, corpus, inputs, exprspace as E
 from ..local import ALL_OFF
+from . import _tokens
 
 PID = 'C02'
 
@@ -171,6 +175,11 @@ def run(args, rep):
                 rep.nontrivial.add(sha(q['src_b64']))
         per_version[v] = n
         rep.evaluations += n
+    # token spacing: TokensS / Tokens / Trace_Tokens over what the real TokenPrinter emitted for all of these texts
+    tok_sources = [text for _tid, text in texts] + [text for _tid, text in lits]
+    tok_sources += [b.decode('utf-8', 'surrogatepass') for _n, b in inputs.shapes('3.12')]
+    tok_sources += [b.decode('utf-8', 'replace') for _p, b in corpus.stdlib('3.12', 60 if args.tier == 'quick' else 300)[0]]
+    _tokens.token_section(args, rep, tok_sources)
     # side 2 of the triangle on the orchestrator's grammar: S's table against CPython's parser, cell by cell
     import ast
     import importlib.util
